@@ -7,7 +7,7 @@
     from the compiled code (Gen/Params.v) and are pinned here.  Part 3 of the property (no token in
     any owned rt_response) is checked dynamically (`wwh owned`). *)
 From Coq Require Import NArith List Bool String.
-From WW Require Import Base.Bytes Base.BytesLit Gen.Params Model.Router Proofs.RouterP Proofs.UrlPathP Proofs.RouterPrefixP.
+From WW Require Import Base.Bytes Base.BytesLit Gen.Params Model.Router Proofs.RouterP Proofs.UrlPathP Proofs.RouterPrefixP Proofs.IngressSetP.
 Import ListNotations.
 Open Scope N_scope.
 
@@ -201,6 +201,62 @@ Proof.
   repeat split; rewrite prefix_transparent by (right; eexists; reflexivity); destruct md, idp; vm_compute; reflexivity.
 Qed.
 Print Assumptions c15_endpoints_for_every_prefix.
+
+(** ** "for every ingress prefix": from the configured ingresses to the mounted prefixes
+
+    router.New mounts <p>/oauth2 for every p of Ingresses.Paths(); Model/Router.v rt_parse_ingresses / rt_ingress_paths
+    transliterate pkg/ingress.ParseIngresses (trailing slashes dropped, first ingress with a given String() kept, distinct
+    paths) and are compared with the real ParseIngresses on every run (`wwh router`, kind rtingress; the requests of the
+    sweep are aimed at the CONFIGURED prefixes, the route tables are those of the real router for the same lists).
+    The mounted prefixes are exactly the configured paths, compared byte for byte ... *)
+Theorem c15_mounted_prefixes_are_the_configured_paths : forall ings p,
+  In p (rt_ingress_paths ings) <-> exists i, In i ings /\ p = trim_right_slashes (ri_path i).
+Proof. exact ingress_paths_in. Qed.
+Print Assumptions c15_mounted_prefixes_are_the_configured_paths.
+
+Theorem c15_no_prefix_mounted_twice : forall ings, NoDup (rt_ingress_paths ings).
+Proof. exact ingress_paths_nodup. Qed.
+Print Assumptions c15_no_prefix_mounted_twice.
+
+(** ... so EVERY distinct configured path prefix gets the owned mount - whatever else is configured (the same path in another
+    letter case, the same path on another host or on a host spelt in another case, duplicates, trailing slashes, nested
+    paths): a request for <prefix>/oauth2 or anything below it is never handed to the catch-all proxy handler, and with a
+    method chi knows it is answered inside the mount. *)
+Theorem c15_every_configured_prefix_never_proxied : forall md idp ings i method sub,
+  In i ings -> (sub = [] \/ exists r, sub = 47 :: r) ->
+  route_req (rconfig_of_ingresses md idp ings) method [] (trim_right_slashes (ri_path i) ++ path_oauth2 ++ sub) <> OutWildcard.
+Proof. exact configured_prefix_never_proxied. Qed.
+Print Assumptions c15_every_configured_prefix_never_proxied.
+
+Theorem c15_every_configured_prefix_mounted : forall md idp ings i method sub,
+  known_method method -> In i ings -> (sub = [] \/ exists r, sub = 47 :: r) ->
+  exists pre r na,
+    route_req (rconfig_of_ingresses md idp ings) method [] (trim_right_slashes (ri_path i) ++ path_oauth2 ++ sub) = OutOwned pre r na.
+Proof. exact configured_prefix_owned. Qed.
+Print Assumptions c15_every_configured_prefix_mounted.
+
+(** Why the de-duplication has to compare paths byte for byte: with a key that folds the letter case of the whole ingress
+    string ("URLs are case-insensitive in scheme and host") the second of https://h/Soknad, https://h/soknad is dropped
+    and GET /soknad/oauth2/session reaches the catch-all proxy handler. *)
+Theorem c15_case_folded_ingress_key_refuted :
+  exists ings i, In i ings /\ ~ In (trim_right_slashes (ri_path i)) (ingress_paths_fold ings) /\
+    route_req {| rc_mode := Standalone; rc_idporten := false; rc_prefixes := ingress_paths_fold ings |}
+              s_get [] (trim_right_slashes (ri_path i) ++ path_oauth2 ++ path_session) = OutWildcard.
+Proof.
+  exists case_pair, {| ri_origin := bs "https://h"; ri_path := bs "/soknad" |}.
+  split; [right; left; reflexivity|]. split; [|vm_compute; reflexivity].
+  vm_compute. intros [H|[]]. discriminate H.
+Qed.
+Print Assumptions c15_case_folded_ingress_key_refuted.
+
+Example c15_ingress_prefixes_nonvacuous :
+  rt_ingress_paths case_pair = [bs "/Soknad"; bs "/soknad"] /\
+  rt_ingress_paths [ {| ri_origin := bs "http://H"; ri_path := bs "/app/" |}; {| ri_origin := bs "http://h"; ri_path := bs "/app" |};
+                  {| ri_origin := bs "http://h"; ri_path := bs "/app//" |}; {| ri_origin := bs "http://h"; ri_path := bs "/" |};
+                  {| ri_origin := bs "http://h"; ri_path := bs "/app/sub" |} ] = [bs "/app"; []; bs "/app/sub"] /\
+  route_req (rconfig_of_ingresses Standalone false case_pair) s_get [] (bs "/soknad/oauth2/session") =
+    OutOwned [] (Some (EpSession, [])) false.
+Proof. vm_compute. repeat split. Qed.
 
 (** ** Part 4 — non-cacheable *)
 
